@@ -20,7 +20,7 @@ LEVEL = "model_checking"
 DESIGN_REF = "DESIGN.md 4/C09"
 RULE = (
     "case = (name assignment, edge set, spelling, operation): nodes are (full name, version) pairs from 5 assignments (distinct names "
-    "in one namespace; three versions of one name; cross-root; nested namespace with two versions; 4 nodes in the thorough tier); "
+    "in one namespace; three versions of one name; cross-root; a root namespace split over two directories with a same-identity twin; thorough: nested namespace with versions, twins only in lookups, 4 nodes); every edge additionally doubled with mixed spellings (correct / relative / wrong letter case, in both orders) for edge sets of <=2 (thorough 3) edges; letter-case twin names with a definition sorting between them, referenced from a fourth definition; "
     "EVERY edge set over the nodes (2**(n*n), self loops and cycles included) x references spelled absolute / relative where "
     "admissible x {read_namespace; read_files for every non-empty target subset in every list order}; plus bad-reference families "
     "(missing version, missing name, wrong letter case, duplicate definition in a second lookup root, reference to the other "
@@ -40,7 +40,16 @@ ASSIGNMENTS = {
     "cross-root": [("r", "r.B", (1, 0)), ("r", "r.A", (1, 0)), ("q", "q.D", (1, 0))],
     "nested-versions": [("r", "r.s.C", (1, 0)), ("r", "r.s.C", (2, 0)), ("r", "r.s.E", (1, 0))],
     "four": [("r", "r.A", (0, 1)), ("r", "r.A", (0, 2)), ("r", "r.s.C", (1, 0)), ("q", "q.D", (1, 0))],
+    # the root namespace r is split over two directories; r.A.1.0 exists in both (a "twin")
+    "twins": [("r", "r.A", (1, 0)), ("q2/r", "r.A", (1, 0)), ("r", "r.B", (1, 0))],
+    "twins-lookup": [("r", "r.B", (1, 0)), ("q2/r", "r.A", (1, 0)), ("q3/r", "r.A", (1, 0))],
+    # names that differ only by letter case, with another definition sorting between them
+    # (only references from the fourth, unrelated definition are explored: whether a letter-case twin that is itself being
+    # read is visible to its own dependency chain is not something the property settles)
+    "case-twins": [("r", "r.AB", (1, 0)), ("r", "r.AC", (1, 0)), ("r", "r.Ab", (1, 0)), ("r", "r.Z", (1, 0))],
+    "case-twins-versions": [("r", "r.AB", (1, 0)), ("r", "r.AB", (0, 1)), ("r", "r.Ab", (1, 0)), ("r", "r.Z", (1, 0))],
 }
+LOOKUPS = ["q", "q2/r", "q3/r"]
 
 
 def make_config(assignment, edges, spelling, extra_defs=()):
@@ -48,12 +57,18 @@ def make_config(assignment, edges, spelling, extra_defs=()):
     defs = []
     for i, (d, name, ver) in enumerate(nodes):
         refs = []
-        for (a, b) in edges:
+        for e in edges:
+            a, b = e[0], e[1]
+            esp = e[2] if len(e) > 2 else spelling
             if a == i:
                 tn = nodes[b]
                 same_ns = tn[1].rsplit(".", 1)[0] == name.rsplit(".", 1)[0]
-                sp = "rel" if (spelling == "rel" and same_ns) else "abs"
-                refs.append([tn[1], list(tn[2]), sp])
+                if esp == "miscase":  # the last name component with swapped letter case: matches no definition exactly
+                    head, last = tn[1].rsplit(".", 1)
+                    refs.append([head + "." + last.swapcase(), list(tn[2]), "abs"])
+                else:
+                    sp = "rel" if (esp == "rel" and same_ns) else "abs"
+                    refs.append([tn[1], list(tn[2]), sp])
         dd = {"dir": d, "name": name, "ver": list(ver), "refs": refs, "port": None, "legacy": False, "text": None}
         defs.append(dd)
     for x in extra_defs:
@@ -65,7 +80,7 @@ def make_config(assignment, edges, spelling, extra_defs=()):
                 lines.append("%s r%d" % (N.ref_expr(dd, r) if not r[2].startswith("raw:") else r[2][4:], j))
             lines += ["uint8 ID = %d" % (i + 1), "@sealed"]
             dd["text"] = "\n".join(lines) + "\n"
-    return {"root": "r", "lookups": ["q"], "defs": defs}
+    return {"root": "r", "lookups": list(LOOKUPS), "defs": defs}
 
 
 def all_edge_sets(n):
@@ -76,7 +91,10 @@ def all_edge_sets(n):
 
 def plan(tier):
     shards = []
-    for a in ("names", "versions", "cross-root", "nested-versions"):
+    for a in ("case-twins", "case-twins-versions"):
+        shards.append({"kind": "graphs-from-last", "assignment": a, "n": 4})
+    full = ("names", "versions", "cross-root", "twins") if tier == "quick" else ("names", "versions", "cross-root", "nested-versions", "twins", "twins-lookup")
+    for a in full:
         for p in range(16):
             shards.append({"kind": "graphs", "assignment": a, "n": 3, "part": p, "parts": 16})
         shards.append({"kind": "graphs", "assignment": a, "n": 2, "part": 0, "parts": 1})
@@ -88,6 +106,14 @@ def plan(tier):
 
 
 def cases(shard, tier):
+    if shard["kind"] == "graphs-from-last":
+        n = shard["n"]
+        outs = [(n - 1, b) for b in range(n - 1)]
+        for mask in range(1, 1 << len(outs)):
+            edges = [outs[i] for i in range(len(outs)) if mask >> i & 1]
+            for sps in itertools.product(("abs", "rel", "miscase"), repeat=len(edges)):
+                yield {"kind": "graph", "assignment": shard["assignment"], "n": n, "edges": [[a, b, sp] for (a, b), sp in zip(edges, sps)], "spelling": "abs"}
+        return
     if shard["kind"] == "graphs":
         n = shard["n"]
         for i, edges in enumerate(all_edge_sets(n)):
@@ -99,6 +125,16 @@ def cases(shard, tier):
                 if sp == "rel" and not any(ASSIGNMENTS[shard["assignment"]][a][1].rsplit(".", 1)[0] == ASSIGNMENTS[shard["assignment"]][b][1].rsplit(".", 1)[0] for a, b in edges):
                     continue
                 yield {"kind": "graph", "assignment": shard["assignment"], "n": n, "edges": [list(e) for e in edges], "spelling": sp}
+            # the same dependency referenced twice with different spellings (incl. a letter-case mismatch, first or second),
+            # and single mis-cased references: for every edge of every edge set with at most 3 edges
+            if 1 <= len(edges) <= (2 if tier == "quick" else 3) and n <= 3 and (tier != "quick" or shard["assignment"] in ("names", "twins", "cross-root")):
+                for k in range(len(edges)):
+                    for first, second in (("abs", "miscase"), ("miscase", "abs"), ("abs", "abs"), ("rel", "abs"), ("miscase", None)):
+                        es = [list(e) + ["abs"] for e in edges]
+                        es[k][2] = first
+                        if second is not None:
+                            es.insert(k + 1, [edges[k][0], edges[k][1], second])
+                        yield {"kind": "graph", "assignment": shard["assignment"], "n": n, "edges": es, "spelling": "abs", "light": True}
     else:
         yield {"kind": "badrefs"}
 
@@ -135,19 +171,24 @@ def check_graph(case, R: engine.Acc):
     base = ws.fresh()
     try:
         ws.write_tree(base, {N.file_of(d): d["text"] for d in cfg["defs"]})
-        for d in ("r", "q"):
-            (base / d).mkdir(exist_ok=True)
-        # standalone reads: every definition on its own through read_files (fresh objects per call)
+        for d in ["r"] + LOOKUPS:
+            (base / d).mkdir(parents=True, exist_ok=True)
+        has_twins = len({N.ident(d) for d in cfg["defs"]}) < len(cfg["defs"])
+        # standalone reads: every definition on its own through read_files (fresh objects per call); keyed by file
         standalone = {}
         for d in cfg["defs"]:
             with engine.deadline(20):
                 o = run_public(base, cfg, "rf", [d])
             if "ok" in o:
-                standalone[N.ident(d)] = dump.composite(o["direct"][0])
+                standalone[N.file_of(d)] = dump.composite(o["direct"][0])
         ops = [("rn", None)]
         defs = cfg["defs"]
         for k in range(1, len(defs) + 1):
             for sub in itertools.permutations(range(len(defs)), k):
+                if has_twins and (len(sub) > 1 or defs[sub[0]]["dir"] != "r"):
+                    continue  # several targets with one identity: outside this property (see C10/C13)
+                if case.get("light") and len(sub) > 1:
+                    continue  # spelling variants of an edge set already explored in full: namespace read and single targets only
                 ops.append(("rf", list(sub)))
         if "op" in case:
             ops = [tuple(case["op"])]
@@ -192,19 +233,22 @@ def check_graph(case, R: engine.Acc):
                 continue
             bad = False
             for t in o["ok"]:
-                me = next(d for d in defs if N.ident(d) == str(t))
-                want = [N.ident(next(x for x in defs if x["name"] == r[0] and x["ver"] == r[1])) for r in me["refs"]]
-                have = [(n, str(x)) for n, x in nested_types(t)]
+                me = next(d for d in defs if N.file_of(d) == api.rel(base, t.source_file_path))
+                want = []
+                for r in me["refs"]:
+                    c = [x for x in defs if x["name"] == r[0] and x["ver"] == r[1] and not (x["name"] == me["name"] and x["ver"] == me["ver"])]
+                    want.append(N.file_of(c[0]) if len(c) == 1 else "?")
+                have = [(n, api.rel(base, x.source_file_path)) for n, x in nested_types(t)]
                 if [h[1] for h in have] != want:
                     R.violation("resolved-to-another-definition", "a reference resolves to exactly the definition with that full name and version", one, observed=have, expected=want)
                     bad = True
                     break
                 for n, x in nested_types(t):
-                    if dump.composite(x) != standalone.get(str(x)):
+                    if dump.composite(x) != standalone.get(api.rel(base, x.source_file_path)):
                         R.violation("nested-type-differs-from-standalone-read", "the nested type equals what reading that definition on its own yields", one, observed=str(x))
                         bad = True
                         break
-                if dump.composite(t) != standalone.get(str(t)):
+                if dump.composite(t) != standalone.get(api.rel(base, t.source_file_path)):
                     R.violation("type-differs-between-reads", "a type is the same however it is reached", one, observed=str(t))
                     bad = True
                 if bad:
@@ -217,7 +261,7 @@ def check_graph(case, R: engine.Acc):
             acyclic = True
         except N.Invalid:
             acyclic = False
-        if acyclic and "op" not in case and len(defs) <= 3:
+        if acyclic and "op" not in case and len(defs) <= 3 and not has_twins and not case.get("light"):
             from pydsdl._dsdl_definition import DSDLDefinition
 
             for order in itertools.permutations(range(len(defs))):
@@ -228,7 +272,7 @@ def check_graph(case, R: engine.Acc):
                     cached.append(i)
                     R.state(["hist", case["assignment"], case["n"], case["edges"], case["spelling"], sorted(cached)])
                     R.transitions += 1
-                    if dump.composite(t) != standalone.get(N.ident(defs[i])):
+                    if dump.composite(t) != standalone.get(N.file_of(defs[i])):
                         R.violation("cached-read-differs", "the result of reading a definition does not depend on what was read before", {**case, "order": list(order)}, observed=str(t))
                         break
                 R.traces += 1
